@@ -61,6 +61,10 @@ ASSUMED = {
     ('parse.c', 'stmt', 'current_fn->ty->return_ty'): 'current_fn is a function object',
     ('codegen.c', 'copy_struct_reg', 'current_fn->ty->return_ty'): 'current_fn is a function object',
     ('codegen.c', 'copy_struct_mem', 'current_fn->ty->return_ty'): 'current_fn is a function object',
+    # R13.9 (successor of a token that cannot be the end marker for reasons outside the engine's reach)
+    ('preprocess.c', 'paste', 'Token->next'): 'the pasted buffer holds the text of two non-empty tokens, so the first token of its tokenization is not the end marker',
+    ('tokenize.c', 'add_line_numbers', 'param#1(Token*)->next'): 'the end marker starts at the terminating NUL, where the byte scan stops (R13.6L terminating-NUL-visited): the cursor is not used after it',
+    ('parse.c', 'resolve_goto_labels', 'Node->tok->next'): 'the token of a goto node is the `goto` keyword; stmt() has read the label name that follows it',
 }
 
 
@@ -69,7 +73,15 @@ ASSUMED = {
 END_MARKER = {'Token': ('kind', 'TK_EOF', 'next')}
 # predicates p(tok, str) that are true only if the token's text has the length of str (shape checked by r139_pre): with a
 # non-empty string the token is not the marker, whose length is 0 (checked by r139_pre)
-LEN_PREDICATES = {'equal': (0, 1)}
+LEN_PREDICATES = {'equal': (0, 1, 'true')}
+# the same for functions whose body the engine cannot follow that far; each confirmed by reading (assumptions of the check):
+MARKER_MODELS = {
+    'is_typename': ((0, None, 'true'), 'true only for a keyword (looked up by the token\'s length in a table of non-empty keywords) or a typedef name (find_typedef tests TK_IDENT); the marker has length 0'),
+    'struct_ref': ((1, None, 'return'), 'returns only if get_struct_member() finds a member whose (non-empty) name has the token\'s length; for the marker (length 0) "no such member" is diagnosed'),
+}
+MARKER_LEN_FIELD = {'Token': 'len'}
+# functions in which `c != e` compares a cursor with a position reached from it through the links: c is before e, so it is not the marker
+CURSOR_COMPARE = {('preprocess.c', 'join_adjacent_string_literals'): 'tok2 is reached from tok1 by following next over string literals; every token before it is a string literal'}
 FIELD_RULE = {'Token.next': 'R13.9'}
 
 
@@ -88,6 +100,9 @@ def _world(P):
                                           'why': 'the %s element is the last one of every %s list, its %s is NULL' % (marker, rec, link)}
     W.end_marker = dict(END_MARKER)
     W.len_predicates = dict(LEN_PREDICATES)
+    for f, (m, why) in MARKER_MODELS.items():
+        W.len_predicates[f] = m
+    W.cursor_compare = dict(CURSOR_COMPARE)
     W.nonempty_strs = W.nonempty_string_params()
     for (un, fn, path), why in ASSUMED.items():
         W.assumed_nonnull.setdefault((un, fn), set()).add(path)
@@ -107,9 +122,13 @@ def run(P, rep, tier):
                        'Not decided: termination, acceptance of all byte strings, recursion depth.')
     rep.assumptions += ['calloc/malloc/open_memstream succeed', 'every Node that reaches the code generator was typed by add_type and is not modified afterwards (typing relation injected into codegen.c)',
                         'a forced merge of analysis states (more than %d disjuncts, loop widening) makes disagreeing facts unknown, never may-be-NULL' % L.CAP, 'a callee does not reset an object field the caller has just tested (no alias kills); globals are killed only by direct writers',
+                        'R13.9: the successor of the TK_EOF token is NULL; out-parameters (Token **rest) are not aliased; ' + '; '.join('%s() %s' % (f, why) for f, (m, why) in sorted(MARKER_MODELS.items()))
+                        + '; ' + '; '.join('%s:%s %s' % (k[0], k[1], v) for k, v in sorted(CURSOR_COMPARE.items())),
                         'facts established in other functions, each confirmed by reading: ' + '; '.join('%s:%s %s (%s)' % (k[0], k[1], k[2], v) for k, v in sorted(ASSUMED.items()))]
     W = _world(P)
     engs = L.solve(W)
+    pre = L.derive_entry_facts(W, engs, skip_units=('codegen.c',))
+    rep.extra['end_marker_preconditions (each established by every caller)'] = {'%s:%s' % k: {'param#%d%s' % (i + 1, suf): sites for (i, suf), sites in sorted(v.items())} for k, v in sorted(pre.items())}
     rep.extra['derived_tables'] = {
         'nullable_params': sorted('%s#%d' % (f, i + 1) for (f, i) in W.nullable_params),
         'nullable_results': sorted(f for f in W.nullable_rets if f in W.fn_unit),
@@ -132,6 +151,7 @@ def run(P, rep, tier):
     r137(P, rep)
     r136_lines(P, rep)
     r138(W, engs, rep)
+    r139_pre(W, rep)
 
 
 # --------------------------------------------------------------------------------------------
@@ -239,6 +259,11 @@ def r131(W, engs, rep):
                     msg = ('%s() dereferences `%s` (%s) although it may be NULL here: %s; no dominating test, assertion or earlier dereference makes it non-null%s'
                            ' -> the compiler dies with SIGSEGV instead of printing a located diagnostic'
                            % (f, d['expr'], how, _why(d['src']), (' (in the arm/guard %s)' % d['ctx']) if d['ctx'] else ''))
+                    if rule == 'R13.9':
+                        msg = ('%s() uses `%s` (%s), which was loaded from the successor field of a token that is not known to differ from the end-of-input token here: when the '
+                               'input ends at this point the cursor has run past TK_EOF, whose successor is NULL; no test of the token\'s kind, successful comparison with a non-empty '
+                               'string, caller guarantee or null test dominates the use%s -> SIGSEGV instead of a located diagnostic'
+                               % (f, d['expr'], how, (' (in the arm/guard %s)' % d['ctx']) if d['ctx'] else ''))
                 obs[(rule, key)] = (not d['bad'], msg, '%s:%d' % (un, d['node'].line), {'source': _why(d['src']), 'expression': d['expr'], 'context': d['ctx']})
     for (rule, key), (ok, msg, where, facts) in sorted(obs.items()):
         rep.ob(rule, key, ok, msg, where=where, facts=facts)
@@ -1339,3 +1364,96 @@ def r138(W, engs, rep):
                        where='%s:%d' % (g.split(':')[0], line), facts={'accepted_base_kinds': sorted(A)})
     if judged == 0:
         rep.undecided('R13.8', 'codegen.c:gen_addr:conditional-arms', 'no conditionally handled node kind of gen_addr() reaches its diagnostic (shape not recognised)')
+
+
+# --------------------------------------------------------------------------------------------
+def _conjuncts(n):
+    n = n.strip()
+    if n.kind == 'BinaryOperator' and n.opcode == '&&':
+        return _conjuncts(n.inner[0]) + _conjuncts(n.inner[1])
+    return [n]
+
+
+def r139_pre(W, rep):
+    """the two facts the length predicates of R13.9 rest on: the predicate is true only if the string ends at the token's length,
+    and every construction of the end marker gives it length 0"""
+    for f, (ti, si, when) in sorted(LEN_PREDICATES.items()):
+        uns = W.fn_unit.get(f, [])
+        if len(uns) != 1:
+            rep.undecided('R13.9', 'predicate:%s' % f, 'the token/string comparison %s() is not defined exactly once' % f)
+            continue
+        u = W.units[uns[0]]
+        fd = u.functions[f]
+        ps = [c for c in fd.inner if c.kind == 'ParmVarDecl']
+        rets = fd.find('ReturnStmt')
+        lf = MARKER_LEN_FIELD.get(L.rec_of(ps[ti].type) if ti < len(ps) else None)
+        ok = bool(rets) and lf is not None and si < len(ps)
+        for r in rets:
+            good = False
+            for c in (_conjuncts(r.inner[0]) if r.inner else []):
+                if c.kind != 'BinaryOperator' or c.opcode != '==':
+                    continue
+                for a, b in ((c.inner[0].strip_all(), c.inner[1].strip_all()), (c.inner[1].strip_all(), c.inner[0].strip_all())):
+                    if a.kind != 'ArraySubscriptExpr' or b.int_value() != 0:
+                        continue
+                    base, idx = a.inner[0].strip_all(), a.inner[1].strip_all()
+                    if (base.kind == 'DeclRefExpr' and base.ref_id == ps[si].id and idx.kind == 'MemberExpr' and idx.name == lf
+                            and idx.inner[0].strip_all().kind == 'DeclRefExpr' and idx.inner[0].strip_all().ref_id == ps[ti].id):
+                        good = True
+            ok = ok and good
+        key = '%s:%s:true-only-if-string-ends-at-token-length' % (uns[0], f)
+        if ok:
+            rep.ob('R13.9', key, True, '', where='%s:%d' % (uns[0], fd.line))
+        else:
+            rep.undecided('R13.9', key, '%s() is no longer recognised as `... && str[tok->len] == 0`: whether a successful comparison with a non-empty string excludes the end marker cannot be told' % f,
+                          where='%s:%d' % (uns[0], fd.line))
+    n = 0
+    for rec, (kf, marker, link) in sorted(END_MARKER.items()):
+        lf = MARKER_LEN_FIELD.get(rec)
+        for un, u in sorted(W.units.items()):
+            for f, fd in sorted(u.functions.items()):
+                # (a) stores  X->kind = MARKER
+                for b in fd.find('BinaryOperator'):
+                    if b.opcode != '=':
+                        continue
+                    lhs, rhs = b.inner[0].strip(), b.inner[1].strip_all()
+                    if not (lhs.kind == 'MemberExpr' and lhs.name == kf and L.rec_of(L.pointee(lhs.inner[0].type or '') if lhs.d.get('isArrow') else lhs.inner[0].type) == rec):
+                        continue
+                    if not (rhs.kind == 'DeclRefExpr' and rhs.ref_kind == 'EnumConstantDecl' and rhs.ref_name == marker):
+                        continue
+                    base = lhs.inner[0].src()
+                    zero = any(x.opcode == '=' and x.inner[0].strip().kind == 'MemberExpr' and x.inner[0].strip().name == lf and x.inner[0].strip().inner[0].src() == base
+                               and x.inner[1].int_value() == 0 for x in fd.find('BinaryOperator'))
+                    n += 1
+                    rep.ob('R13.9', '%s:%s:marker-has-length-0' % (un, f), zero,
+                           '%s() turns a token into the end marker (%s) without setting its length to 0: equal(marker, "x") can then be true and the parser advances past the end of the list' % (f, marker),
+                           where='%s:%d' % (un, b.line))
+                # (b) constructor calls  g(MARKER, start, end)
+                for c in fd.calls():
+                    g = c.callee()
+                    a = c.args()
+                    idx = [i for i, x in enumerate(a) if x.strip_all().kind == 'DeclRefExpr' and x.strip_all().ref_kind == 'EnumConstantDecl' and x.strip_all().ref_name == marker]
+                    if not idx or g not in W.fn_unit or W.ret_kind.get(g) != ('param', idx[0]):
+                        continue
+                    gu = W.resolve(u, g)
+                    gd = gu.functions[g]
+                    gp = [x.id for x in gd.inner if x.kind == 'ParmVarDecl']
+                    pair = None
+                    for x in gd.find('BinaryOperator'):
+                        l = x.inner[0].strip()
+                        if x.opcode == '=' and l.kind == 'MemberExpr' and l.name == lf:
+                            r = x.inner[1].strip_all()
+                            if r.kind == 'BinaryOperator' and r.opcode == '-':
+                                p, q = r.inner[0].strip_all(), r.inner[1].strip_all()
+                                if p.kind == q.kind == 'DeclRefExpr' and p.ref_id in gp and q.ref_id in gp:
+                                    pair = (gp.index(p.ref_id), gp.index(q.ref_id))
+                    n += 1
+                    key = '%s:%s:marker-has-length-0' % (un, f)
+                    if pair is None or max(pair) >= len(a):
+                        rep.undecided('R13.9', key, 'the length %s() gives the token it constructs is not recognised as `end - start`' % g, where='%s:%d' % (un, c.line))
+                    else:
+                        rep.ob('R13.9', key, a[pair[0]].src() == a[pair[1]].src(),
+                               '%s() constructs the end marker with the text %s..%s, which is not empty: equal(marker, "x") can then be true and the parser advances past the end of the list'
+                               % (f, a[pair[1]].src(), a[pair[0]].src()), where='%s:%d' % (un, c.line))
+    if n == 0:
+        rep.undecided('R13.9', 'marker:constructions', 'no construction of the end marker was recognised')
